@@ -358,6 +358,9 @@ def d4_whole_file_rewrites(ctx):
             if isinstance(r.value, ast.Name) and any(any(x in loads for x in ast.walk(v))
                                                      for v, _ in defs_of(f.node, r.value.id)):
                 continue
+            # a value computed from the parse result (copy of it, element of a pair that holds it ...)
+            if r.value is not None and {'json.load', 'json.loads'} & set(derived(f.node, r.value)):
+                continue
             # a non-parsed return is only allowed directly under `not <path>.exists()`
             from ._shared import default_only_when_absent
             ok = default_only_when_absent(f, r)
